@@ -5,6 +5,8 @@ import CoclsModel.Generated.LockTables
 import CoclsModel.Generated.SharedAccess
 import CoclsModel.LockProg
 import CoclsModel.Generated.LockProgs
+import CoclsModel.ChainClockProofs
+import CoclsModel.MutexClockProofs
 /-!
 # C03 — cross-thread operations are data-race free and publish results safely
 
@@ -425,5 +427,319 @@ theorem c03_lock_programs_safe (calls : Nat → List (List LockDisc.Act))
     (hc : ∀ t, ∀ c ∈ calls t, ∃ f ∈ Generated.LockProgs.allLockProgs, f.entry = true ∧ LockProg.Lin f.prog c) :
     ∀ sched : List Nat, (LockDisc.run (fun t => (calls t).flatten) sched).raced = false :=
   LockProg.lockfns_safe _ c03_lock_programs_disciplined calls hc
+
+/-! ## Promise/future/awaiter protocol on the happens-before machine -/
+
+/-! The list `protocols` above pairs sites by hand.  `ChainClock.lean` puts the happens-before machine UNDER the micro-step model of
+the whole promise / future / awaiter-chain protocol (`Chain.lean`, the model of C01 / C02): all agents, all atomic sites and all plain
+accesses at once.  `ChainClockProofs.chain_race_free` proves race freedom for every configuration, schedule and stale-read choice from
+`ChainOrders.sufficient`; here the orders are looked up in the extracted table (`chainOrdersOf`), so weakening any order in
+`awaiter.h` / `future.h` breaks `c03_chain_orders_current` at `lake build`.
+
+Model assumption about plain accesses → table obligation that checks it against the source:
+
+| assumption of `ChainClock.lean` | obligation |
+|---|---|
+| `future::set` is plain code (no atomic operation inside), wholly before the resolving exchange | `c03_chain_set_before_resolve` |
+| the payload is one location: value / exception first, `_state` last | `c03_set_constructs_before_state` |
+| `resolve()` is the single exchange `resume_chain_set_ready`, the walk `resume_chain_lk` has no atomic operation and runs on the exchange's result | `c03_rmw_shapes`, `c03_chain_walk_accesses` |
+| per node the walker reads `_next`, writes `_next`, then `resume()` (handle / resume fn), nothing after `resume()` | `c03_chain_walk_accesses`, `c03_walk_reads_next_before_resume` |
+| the waiter's accesses to its `_next` in `subscribe_check_ready`: CAS write-back, test, clear — none after a successful CAS; fence last | `c03_chain_subscribe_accesses`, `c03_awaiter_no_touch_after_publish`, `c03_rmw_shapes` |
+| `pending()` gates no access | `c03_hint_loads_gate_nothing` |
+-/
+
+/-- the strongest order that all of `l` provide as far as acquiring goes: the first non-acquiring one, else the head -/
+def weakestAcq (l : List Order) : Order := (l.find? (fun x => !x.isAcq)).getD (l.headD Order.relaxed)
+
+/-- the memory orders of the promise / future / awaiter-chain protocol according to the extracted table, looked up by class /
+function / kind like `findSite`; `none` when a site no longer exists.  A missing fence is not a missing site: `fence := false`. -/
+def chainOrdersOf (tbl : List Site) : Option ChainClock.ChainOrders :=
+  match findSite tbl ⟨"awaiter", "resume_chain_set_ready", OpKind.xchg, 0⟩,
+        findSite tbl ⟨"awaiter", "subscribe_check_ready", OpKind.cas, 0⟩,
+        findSite tbl ⟨"future_common", "ready", OpKind.load, 0⟩,
+        findSite tbl ⟨"sync_awaiter", "wakeup", OpKind.store, 0⟩,
+        findSite tbl ⟨"co_awaiter", "sync", OpKind.wait, 0⟩,
+        findSite tbl ⟨"co_awaiter", "force_sync", OpKind.wait, 0⟩,
+        findSite tbl ⟨"promise", "claim", OpKind.xchg, 0⟩,
+        findSite tbl ⟨"promise", "~promise<T>", OpKind.load, 0⟩,
+        findSite tbl ⟨"future_common", "pending", OpKind.load, 0⟩ with
+  | some x, some cs, some rd, some fs, some w1, some w2, some cl, some dl, some pe =>
+    some { resolve := x.succ, casSucc := cs.succ, casFail := cs.fail, ready := rd.succ,
+           fence := match findSite tbl ⟨"awaiter", "subscribe_check_ready", OpKind.fence, 0⟩ with
+             | some f => f.succ.isAcq
+             | none => false
+           flagStore := fs.succ, flagWait := weakestAcq [w1.succ, w2.succ],
+           claim := cl.succ, dtorLoad := dl.succ, pending := pe.succ }
+  | _, _, _, _, _, _, _, _, _ => none
+
+/-- **Table obligation**: the orders written in `awaiter.h` / `future.h` are sufficient for the whole protocol. -/
+theorem c03_chain_orders_current : (chainOrdersOf Generated.atomicSites).map (·.sufficient) = some true := by decide
+
+/-- what the obligation buys, for any table: no access of the promise / future / awaiter protocol races — for every configuration
+(any number of resolver calls, destructors, waiters of every kind), every schedule, every stale-read choice; every waiter about to
+read the result has the winner's payload write in its clock; and the runs with all loads reading the latest message are, after
+erasing the clocks, exactly the runs of `Chain.lean` (the executions C01 / C02 are about). -/
+theorem c03_chain_publish_safe (tbl : List Site) (h : (chainOrdersOf tbl).map (·.sufficient) = some true) :
+    ∃ o, chainOrdersOf tbl = some o
+      ∧ (∀ (c : Chain.Cfg) (sched : List (Nat × Nat)), (ChainClock.run o c sched).raced = false)
+      ∧ (∀ (c : Chain.Cfg) (sched : List (Nat × Nat)) (t : Nat), (ChainClock.run o c sched).base.pc t = Chain.Pc.wRead →
+          (ChainClock.run o c sched).pay.wr.2 ≤ (ChainClock.run o c sched).clk t (ChainClock.run o c sched).pay.wr.1
+          ∧ ∃ w, (ChainClock.run o c sched).base.winner = some w
+              ∧ ((ChainClock.run o c sched).pay.wr.2 = 0 ∨ (ChainClock.run o c sched).pay.wr.1 = w))
+      ∧ (∀ (c : Chain.Cfg) (sched : List Nat),
+          (ChainClock.run o c (sched.map (fun t => (t, 0)))).base = Chain.run c (Chain.init c) sched) := by
+  cases ho : chainOrdersOf tbl with
+  | none => simp [ho] at h
+  | some o =>
+    have hs : o.sufficient = true := by simpa [ho] using h
+    exact ⟨o, rfl, ChainClock.chain_race_free o hs, fun c sched t hpc => ChainClock.chain_sees_payload o hs c sched t hpc,
+      fun c sched => ChainClock.base_latest o c sched⟩
+
+/-- instantiated with the current tree -/
+theorem c03_chain_protocol_race_free :
+    ∃ o, chainOrdersOf Generated.atomicSites = some o
+      ∧ (∀ (c : Chain.Cfg) (sched : List (Nat × Nat)), (ChainClock.run o c sched).raced = false)
+      ∧ (∀ (c : Chain.Cfg) (sched : List (Nat × Nat)) (t : Nat), (ChainClock.run o c sched).base.pc t = Chain.Pc.wRead →
+          (ChainClock.run o c sched).pay.wr.2 ≤ (ChainClock.run o c sched).clk t (ChainClock.run o c sched).pay.wr.1
+          ∧ ∃ w, (ChainClock.run o c sched).base.winner = some w
+              ∧ ((ChainClock.run o c sched).pay.wr.2 = 0 ∨ (ChainClock.run o c sched).pay.wr.1 = w))
+      ∧ (∀ (c : Chain.Cfg) (sched : List Nat),
+          (ChainClock.run o c (sched.map (fun t => (t, 0)))).base = Chain.run c (Chain.init c) sched) :=
+  c03_chain_publish_safe _ c03_chain_orders_current
+
+/-- the clock facts above are not vacuous: whenever the future holds a value or an exception, the last write of the payload is a
+real epoch (`≥ 1`; 0 = never written) of the winner — "has the winner's write in its clock" means ordered after `future::set` -/
+theorem c03_chain_payload_write_real :
+    ∃ o, chainOrdersOf Generated.atomicSites = some o
+      ∧ ∀ (c : Chain.Cfg) (sched : List (Nat × Nat)), (ChainClock.run o c sched).base.payload ≠ Chain.Outcome.none →
+          ∃ w, (ChainClock.run o c sched).base.winner = some w ∧ (ChainClock.run o c sched).pay.wr.1 = w
+            ∧ 1 ≤ (ChainClock.run o c sched).pay.wr.2 := by
+  cases ho : chainOrdersOf Generated.atomicSites with
+  | none => have h := c03_chain_orders_current; simp [ho] at h
+  | some o =>
+    have hs : o.sufficient = true := by have h := c03_chain_orders_current; simpa [ho] using h
+    exact ⟨o, rfl, fun c sched hp => ChainClock.chain_payload_write_real o hs c sched hp⟩
+
+/-- the pinned commit's table (resolving exchange `acquire` only) fails the obligation -/
+example : ({ ChainClock.srcOrders with resolve := Order.acquire }).sufficient = false := by decide
+
+/-! necessity: each clause of `ChainOrders.sufficient`, weakened alone from the source's orders, has a racing execution -/
+
+theorem c03_chain_needs_release_cas :
+    (ChainClock.run { ChainClock.srcOrders with casSucc := Order.relaxed } ChainClock.cfgCoro ChainClock.schedAwait).raced = true :=
+  ChainClock.chain_needs_release_cas
+theorem c03_chain_needs_release_xchg :
+    (ChainClock.run { ChainClock.srcOrders with resolve := Order.acquire } ChainClock.cfgCoro ChainClock.schedPoll).raced = true :=
+  ChainClock.chain_needs_release_xchg
+theorem c03_chain_needs_acquire_xchg :
+    (ChainClock.run { ChainClock.srcOrders with resolve := Order.release } ChainClock.cfgCoro ChainClock.schedAwait).raced = true :=
+  ChainClock.chain_needs_acquire_xchg
+theorem c03_chain_needs_acquire_ready :
+    (ChainClock.run { ChainClock.srcOrders with ready := Order.relaxed } ChainClock.cfgCoro ChainClock.schedPoll).raced = true :=
+  ChainClock.chain_needs_acquire_ready
+theorem c03_chain_needs_fence :
+    (ChainClock.run { ChainClock.srcOrders with fence := false } ChainClock.cfgCoro ChainClock.schedRefused).raced = true :=
+  ChainClock.chain_needs_fence
+theorem c03_chain_needs_release_flag :
+    (ChainClock.run { ChainClock.srcOrders with flagStore := Order.relaxed } ChainClock.cfgSync ChainClock.schedBlock).raced = true :=
+  ChainClock.chain_needs_release_flag
+theorem c03_chain_needs_acquire_flag :
+    (ChainClock.run { ChainClock.srcOrders with flagWait := Order.relaxed } ChainClock.cfgSync ChainClock.schedBlock).raced = true :=
+  ChainClock.chain_needs_acquire_flag
+
+/-- `claim`, the `~promise` load and `pending()` (relaxed in the source) are not constrained at all: with ANY orders at the three
+sites — relaxed included — the protocol stays race free.  (Deliberately no obligation that they ARE relaxed: strengthening them is
+harmless and must not break the build.) -/
+theorem c03_chain_hint_sites_unconstrained (a b d : Order) :
+    ∃ o, chainOrdersOf Generated.atomicSites = some o
+      ∧ ∀ (c : Chain.Cfg) (sched : List (Nat × Nat)),
+          (ChainClock.run { o with claim := a, dtorLoad := b, pending := d } c sched).raced = false := by
+  cases ho : chainOrdersOf Generated.atomicSites with
+  | none => have h := c03_chain_orders_current; simp [ho] at h
+  | some o =>
+    have hs : o.sufficient = true := by have h := c03_chain_orders_current; simpa [ho] using h
+    exact ⟨o, rfl, ChainClock.chain_hint_orders_free o hs a b d⟩
+
+/-- non-vacuity: a concrete run under the source's orders with three waiters of different kinds (coroutine, blocking, callback), a
+losing competitor, CAS retries and a late `has_value` poller, in which every kind of plain access happens: all agents finish, all
+four waiters read the result, the payload is written once (by agent 0) and read four times, the walker has rewritten the nodes'
+`_next` — and nothing races -/
+example : (ChainClock.run ChainClock.srcOrders ChainClock.cfgMany ChainClock.schedMany).raced = false
+    ∧ (∀ t, t < 6 → (ChainClock.run ChainClock.srcOrders ChainClock.cfgMany ChainClock.schedMany).base.pc t = Chain.Pc.done)
+    ∧ (∀ t, t < 5 → 1 ≤ t → (ChainClock.run ChainClock.srcOrders ChainClock.cfgMany ChainClock.schedMany).base.observed t = 1)
+    ∧ (ChainClock.run ChainClock.srcOrders ChainClock.cfgMany ChainClock.schedMany).pay.wr = (0, 1)
+    ∧ (ChainClock.run ChainClock.srcOrders ChainClock.cfgMany ChainClock.schedMany).pay.rd.length = 4
+    ∧ ((ChainClock.run ChainClock.srcOrders ChainClock.cfgMany ChainClock.schedMany).nxt 1).wr.1 = 0
+    ∧ ((ChainClock.run ChainClock.srcOrders ChainClock.cfgMany ChainClock.schedMany).hnd 3).rd.length = 1 := by decide
+
+/-! plain accesses the model assumes, checked against the extracted table -/
+
+/-- (base, field, is-write) of the non-assert rows of one function, in source order -/
+def accessShape (tbl : List PlainAccess) (cls fn : String) : List (String × String × Bool) :=
+  (tbl.filter (fun a => a.cls == cls && a.fn == fn && !a.inAssert)).map (fun a => (a.base, a.field, a.write))
+
+/-- `resume_chain_lk` per node: read `chain->_next`, write `y->_next`, `y->resume()` — exactly the accesses of `ChainClock.hbWalk` —
+and no atomic operation of its own (it runs on the value the caller's exchange returned) -/
+theorem c03_chain_walk_accesses :
+    accessShape Generated.plainAccesses "awaiter" "resume_chain_lk"
+      = [("chain", "_next", false), ("y", "_next", true), ("", "call:resume", false)]
+    ∧ shapeOf Generated.atomicSites "awaiter" "resume_chain_lk" = [] := by decide
+
+/-- `subscribe_check_ready` touches the awaiter's `_next` exactly as `ChainClock.hbWCas` says: the CAS (expected value passed by
+reference: read, and written back on failure), the test against the ready marker, the clearing store — all of them positioned before
+the successful CAS (`nOps = 0`: the loop body runs only after a failed exchange) -/
+theorem c03_chain_subscribe_accesses :
+    accessShape Generated.plainAccesses "awaiter" "subscribe_check_ready"
+      = [("", "_next", true), ("", "_next", false), ("", "_next", true)]
+    ∧ (Generated.plainAccesses.filter (fun a => a.cls == "awaiter" && a.fn == "subscribe_check_ready")).all (fun a => a.nOps == 0) = true := by
+  decide
+
+/-- `promise::set_value`: in every overload the payload is stored (`future::set`, plain code without any atomic operation) before the
+future is resolved (`resolve()` = the exchange) -/
+def setBeforeResolve (tbl : List PlainAccess) : Bool :=
+  let segs := overloadSegments (tbl.filter (fun a => a.cls == "promise" && a.fn == "set_value"))
+  segs.length ≥ 2
+  && segs.any (fun seg => seg.any (fun a => a.field == "call:set"))
+  && segs.all (fun seg =>
+      allBefore ((seg.filter (fun a => a.field == "call:set")).map (·.pos)) ((seg.filter (fun a => a.field == "call:resolve")).map (·.pos))
+      && (seg.filter (fun a => a.field == "call:resolve")).length ≥ 1)
+
+theorem c03_chain_set_before_resolve :
+    setBeforeResolve Generated.plainAccesses = true
+    ∧ shapeOf Generated.atomicSites "future" "set" = [] ∧ shapeOf Generated.atomicSites "future" "set_ref" = []
+    ∧ shapeOf Generated.atomicSites "future" "resolve" = [] := by decide
+
+/-- "resolve first, store afterwards" is rejected -/
+example : setBeforeResolve
+    [{ cls := "promise", fn := "set_value", base := "", field := "call:resolve", write := false, pos := 0, nOps := 0, inAssert := false },
+     { cls := "promise", fn := "set_value", base := "", field := "call:set", write := false, pos := 1, nOps := 0, inAssert := false },
+     { cls := "promise", fn := "set_value", base := "", field := "call:resolve", write := false, pos := 0, nOps := 0, inAssert := false }] = false := by
+  decide
+
+end Cocls.C03
+
+/-! ## Mutex protocol on the happens-before machine
+
+`protocols` above ties the mutex to the generic message-passing theorem by three hand-picked publish/observe pairs.  This section
+puts the happens-before machine under the coroutine mutex protocol AS A WHOLE (`MutexClock.lean`: the micro-step model `Mutex.lean`
+instrumented with vector clocks, the release-sequence clock of `_requests`, the flags of blocking waiters and FastTrack metadata for
+the protected datum, `_queue`, and `_next` / handle of every request node) and instantiates `MutexClock.mutex_race_free` with the
+orders of the nine synchronising sites found in the extracted table. -/
+namespace Cocls.C03
+open Cocls
+
+/-- of the two blocking-wait sites (`co_awaiter::sync`, `force_sync`) the one that does not acquire, if any -/
+def weakerAcq (a b : Order) : Order := if a.isAcq then b else a
+
+/-- the orders of the synchronising operations of the mutex protocol according to the extracted table (lookups like `findSite`);
+`none` when a site no longer exists -/
+def mutexOrdersOf (tbl : List Site) : Option MutexClock.MutexOrders :=
+  match findSite tbl ⟨"mutex", "ready", OpKind.cas, 0⟩, findSite tbl ⟨"mutex", "subscribe", OpKind.cas, 0⟩,
+        findSite tbl ⟨"mutex", "build_queue", OpKind.xchg, 0⟩, findSite tbl ⟨"mutex", "unlock", OpKind.cas, 0⟩,
+        findSite tbl ⟨"sync_awaiter", "wakeup", OpKind.store, 0⟩, findSite tbl ⟨"co_awaiter", "sync", OpKind.wait, 0⟩,
+        findSite tbl ⟨"co_awaiter", "force_sync", OpKind.wait, 0⟩ with
+  | some rd, some sb, some bq, some ul, some fs, some w1, some w2 =>
+    some { ready := rd.succ, readyFail := rd.fail, subOk := sb.succ, subFail := sb.fail, build := bq.succ,
+           unlockOk := ul.succ, unlockFail := ul.fail, flagStore := fs.succ, flagWait := weakerAcq w1.succ w2.succ }
+  | _, _, _, _, _, _, _ => none
+
+/-- **Obligation on the current source**: the orders written at the nine sites of the mutex protocol are sufficient
+(unlock CAS ⊇ release, `ready()` CAS ⊇ acquire, `build_queue` exchange ⊇ acquire — the extractor resolves an order passed as a
+parameter to the weakest call-site order —, subscribe CAS ⊇ release, flag store ⊇ release, flag wait ⊇ acquire) -/
+theorem c03_mutex_orders_current : (mutexOrdersOf Generated.atomicSites).map (·.sufficient) = some true := by decide
+
+/-- what the obligation buys, for any table -/
+theorem c03_mutex_protocol_safe (tbl : List Site) (h : (mutexOrdersOf tbl).map (·.sufficient) = some true) :
+    ∃ o, mutexOrdersOf tbl = some o ∧
+      ∀ (cfg : MutexClock.Cfg) (sched : List Nat), (MutexClock.run o cfg sched).raced = false := by
+  cases ho : mutexOrdersOf tbl with
+  | none => simp [ho] at h
+  | some o =>
+    simp only [ho, Option.map_some, Option.some.injEq] at h
+    exact ⟨o, rfl, MutexClock.mutex_race_free o h⟩
+
+/-- **The coroutine mutex protocol as a whole is data-race free under the orders of the current source**: any number of contenders,
+each running any number of rounds of `try_lock` / `co_await lock()` / blocking `lock().wait()` → critical section → `unlock`, under
+every schedule: no race on the protected datum, on `_queue`, on `_next` or the handle / resume function of any request node -/
+theorem c03_mutex_protocol_race_free :
+    ∃ o, mutexOrdersOf Generated.atomicSites = some o ∧
+      ∀ (cfg : MutexClock.Cfg) (sched : List Nat), (MutexClock.run o cfg sched).raced = false :=
+  c03_mutex_protocol_safe _ c03_mutex_orders_current
+
+/-- … and every critical section is ordered after the previous one: whoever is about to enter has the last write of the datum in its clock -/
+theorem c03_mutex_handoff_ordered :
+    ∃ o, mutexOrdersOf Generated.atomicSites = some o ∧
+      ∀ (cfg : MutexClock.Cfg) (sched : List Nat) (a : Nat), (MutexClock.run o cfg sched).m.pc a = Mutex.Pc.crit →
+        (MutexClock.run o cfg sched).data.wr.2 ≤ (MutexClock.run o cfg sched).clk a (MutexClock.run o cfg sched).data.wr.1 := by
+  cases ho : mutexOrdersOf Generated.atomicSites with
+  | none => have h := c03_mutex_orders_current; simp [ho] at h
+  | some o =>
+    have h := c03_mutex_orders_current
+    simp only [ho, Option.map_some, Option.some.injEq] at h
+    exact ⟨o, rfl, fun cfg sched a hpc => MutexClock.mutex_handoff_ordered o h cfg sched a hpc⟩
+
+/-- the runs the two theorems speak about are runs of the C07/C08 model `Mutex.lean` (clocks erased: same schedule, same states) -/
+theorem c03_mutex_runs_are_mutex_runs (o : MutexClock.MutexOrders) (cfg : MutexClock.Cfg) (sched : List Nat) :
+    (MutexClock.run o cfg sched).m = sched.foldl (MutexClock.mstep cfg.toMutex) (Mutex.init cfg.toMutex)
+    ∧ Mutex.Reachable cfg.toMutex (MutexClock.run o cfg sched).m :=
+  ⟨MutexClock.run_erase o cfg sched, MutexClock.run_reachable o cfg sched⟩
+
+/-- … and of the pointer-level model `MutexPtr.lean`: the erased run is the `Mutex.arun` of the guarded activity list
+`MutexClock.acts` (the contenders of the schedule that can run, in order), and the pointer-level machine run on that list — real
+`_next` links, `_queue` pointer, pending `build_queue` loops — denotes exactly its `req` / `queue` (`MutexPtr.Repr`) -/
+theorem c03_mutex_runs_are_pointer_runs (o : MutexClock.MutexOrders) (cfg : MutexClock.Cfg) (sched : List Nat) :
+    Mutex.Guarded cfg.toMutex (Mutex.init cfg.toMutex) (MutexClock.acts cfg.toMutex (Mutex.init cfg.toMutex) sched)
+    ∧ (MutexClock.run o cfg sched).m
+        = Mutex.arun cfg.toMutex (Mutex.init cfg.toMutex) (MutexClock.acts cfg.toMutex (Mutex.init cfg.toMutex) sched)
+    ∧ MutexPtr.Repr cfg.toMutex
+        (MutexPtr.arun cfg.toMutex cfg.n (MutexPtr.init cfg.toMutex) (MutexClock.acts cfg.toMutex (Mutex.init cfg.toMutex) sched))
+        (MutexClock.run o cfg sched).m :=
+  ⟨(MutexClock.run_is_arun o cfg sched).1, (MutexClock.run_is_arun o cfg sched).2,
+   MutexClock.run_ptr_repr o cfg sched cfg.n (Nat.le_refl _)⟩
+
+/-! each clause of `MutexOrders.sufficient` is needed: a concrete racing run of the machine when it is dropped (`decide`d in
+`MutexClockProofs.lean`; all other orders as in the source) -/
+
+theorem c03_mutex_needs_unlock_release :
+    ∃ cfg sched, (MutexClock.run { MutexClock.ordersNow with unlockOk := Order.relaxed } cfg sched).raced = true :=
+  ⟨_, _, MutexClock.mutex_needs_unlock_release⟩
+theorem c03_mutex_needs_ready_acquire :
+    ∃ cfg sched, (MutexClock.run { MutexClock.ordersNow with ready := Order.relaxed } cfg sched).raced = true :=
+  ⟨_, _, MutexClock.mutex_needs_ready_acquire⟩
+theorem c03_mutex_needs_subscribe_release :
+    ∃ cfg sched, (MutexClock.run { MutexClock.ordersNow with subOk := Order.relaxed } cfg sched).raced = true :=
+  ⟨_, _, MutexClock.mutex_needs_subscribe_release⟩
+/-- the seeded change `r5-c08-unlock-relaxed-build-queue`: acquire on `unlock`'s failing CAS does not make up for a relaxed exchange
+in `build_queue(doorman)` — a request pushed between the two is walked unsynchronised -/
+theorem c03_mutex_needs_build_acquire :
+    ∃ cfg sched, (MutexClock.run { MutexClock.ordersNow with build := Order.relaxed, unlockFail := Order.acquire } cfg sched).raced = true :=
+  ⟨_, _, MutexClock.mutex_needs_build_acquire⟩
+theorem c03_mutex_needs_build_acquire_found_free :
+    ∃ cfg sched, (MutexClock.run { MutexClock.ordersNow with build := Order.relaxed } cfg sched).raced = true :=
+  ⟨_, _, MutexClock.mutex_needs_build_acquire_found_free⟩
+theorem c03_mutex_needs_flag_release :
+    ∃ cfg sched, (MutexClock.run { MutexClock.ordersNow with flagStore := Order.relaxed } cfg sched).raced = true :=
+  ⟨_, _, MutexClock.mutex_needs_flag_release⟩
+theorem c03_mutex_needs_flag_acquire :
+    ∃ cfg sched, (MutexClock.run { MutexClock.ordersNow with flagWait := Order.relaxed } cfg sched).raced = true :=
+  ⟨_, _, MutexClock.mutex_needs_flag_acquire⟩
+
+/-- the table of the seeded change (exchange relaxed, failing unlock CAS acquire) fails the obligation -/
+example : ({ MutexClock.ordersNow with build := Order.relaxed, unlockFail := Order.acquire } : MutexClock.MutexOrders).sufficient = false := by
+  decide
+
+/-- non-vacuity: the table resolves all nine sites -/
+example : (mutexOrdersOf Generated.atomicSites).isSome = true := by decide
+
+/-- non-vacuity of the theorems: three contenders of three flavours (0 `try_lock`, 1 `co_await lock()`, 2 blocking `lock().wait()`).
+0 takes the lock; 1 subscribes and is suspended; 0's unlock CAS fails (contended: slow path); 2 subscribes in the window before the
+exchange; 0 runs `build_queue(doorman)`, resumes 1; 1 hands over to the blocking waiter 2 through its flag; 2 unlocks on the fast
+path.  All three critical sections run, in arrival order, the last write of the datum is 2's, the mutex ends free, nothing raced. -/
+example : (MutexClock.run MutexClock.ordersNow MutexClock.cfg3 MutexClock.sched3).raced = false
+    ∧ (MutexClock.run MutexClock.ordersNow MutexClock.cfg3 MutexClock.sched3).m.grantLog = [0, 1, 2]
+    ∧ (MutexClock.run MutexClock.ordersNow MutexClock.cfg3 MutexClock.sched3).data.wr.1 = 2
+    ∧ (MutexClock.run MutexClock.ordersNow MutexClock.cfg3 MutexClock.sched3).m.req = []
+    ∧ (MutexClock.run MutexClock.ordersNow MutexClock.cfg3 (MutexClock.sched3.take 6)).m.pc 0 = Mutex.Pc.relBuild
+    ∧ (MutexClock.run MutexClock.ordersNow MutexClock.cfg3 (MutexClock.sched3.take 14)).m.flag 2 = true := by decide
 
 end Cocls.C03
